@@ -194,7 +194,9 @@ func (c *LocalReusableWorkflowCache) readCache(key string) (*ReusableWorkflowMet
 
 func (c *LocalReusableWorkflowCache) writeCache(key string, val *ReusableWorkflowMetadata) {
 	c.mu.Lock()
-	c.cache[key] = val
+	if c.cache != nil { // The null cache, which is used when no project is found, has no map
+		c.cache[key] = val
+	}
 	c.mu.Unlock()
 }
 
